@@ -20,11 +20,28 @@
 (*           keys from one changed input, everything he can sign is signed:   *)
 (*           only the checks that need the cold key, the registration or the  *)
 (*           chain context can reject it.                                     *)
+(*                                                                            *)
+(* HISTORY.  A HeaderValidator is an object that lives as long as the node:   *)
+(* it holds the configuration (layout, SlotsPerKes, MaxEvol, f) and is shown   *)
+(* one header after the other.  The state of the model is the history `hist`  *)
+(* of cases one validator instance has been shown (Init: one case on a fresh  *)
+(* validator; Next: the same instance is shown another case).  The verdict of *)
+(* a step is a function of the configuration and of that step's header and    *)
+(* chain context ONLY (HistoryIrrelevant): what the validator accepted or     *)
+(* rejected before vouches for nothing - an operational certificate accepted  *)
+(* once does not make another cold signature over the same (issuer, hot key,  *)
+(* counter, period) acceptable (ReplayNeedsCold), a rejected header does not  *)
+(* poison the genuine one.  Histories = pairs of cases of one layout of which *)
+(* at least one is accepted on a fresh validator, in both orders (MaxHist 3:  *)
+(* followed by the first one again).                                          *)
 EXTENDS Integers, Sequences, FiniteSets, SequencesExt, Json, TLC
 
 CONSTANTS MaxEvol,       \* maxKESEvolutions
           SlotsPerKes,   \* slotsPerKESPeriod (>= 4: the slots used stay inside one period)
-          OpPeriod       \* KES period the operational certificate starts at (>= 1)
+          OpPeriod,      \* KES period the operational certificate starts at (>= 1)
+          MaxHist,       \* headers shown to one validator instance (2 or 3)
+          MixedOffs      \* TRUE: the steps of a history are at any two period offsets; FALSE: at the
+                         \* same offset, or one of them is the header as built (at any offset)
 
 Layouts == {"praos", "tpraos"}
 Offs    == {-1, 0, MaxEvol - 1, MaxEvol}
@@ -113,7 +130,7 @@ TamperHeader == {"blockNo:+1", "slot:=prev", "slot:-1", "slot:+1", "slot:+period
                  "kesSig:flip", "kesSig:otherperiod", "kesSig:otherbody"}
 TamperAll == TamperHeader \cup {"body:other"}
 InsiderAll == {"blockNo:+1", "slot:=prev", "prevHash:other", "bodyHash:other",
-               "opSeq:+1", "opPeriod:-1", "opSig:othercold", "pool:other", "vrfKey:unregistered",
+               "opSeq:+1", "opPeriod:-1", "opSig:othercold", "opSig:flip", "pool:other", "vrfKey:unregistered",
                "vrfProof:flip", "nonceProof:flip"}
 Applies(m, layout) == m \in {"nonceProof:flip", "nonceOut:flip"} => layout = "tpraos"
 
@@ -189,12 +206,14 @@ InsiderInputs(in, m, Ctx) ==
       [] m = "pool:other"      -> [in EXCEPT !.cold = "c2", !.opSig = EdSig("c2", in.hot, in.opSeq, in.opPeriod)]
       [] m = "vrfKey:unregistered" -> [in EXCEPT !.vrf = "v2"]
       [] OTHER                 -> in           \* the certificate flips are applied to the built body
-\* ... a garbage VRF certificate cannot come out of the builder: it is put in before the KES signature is made
+\* ... a garbage VRF certificate or cold signature cannot come out of the builder: it is put in before the
+\* KES signature is made
 InsiderBuild(in, m, layout, Ctx) ==
     LET in2 == InsiderInputs(in, m, Ctx)
         b   == BodyOf(in2, layout)
         b2  == CASE m = "vrfProof:flip"   -> [b EXCEPT !.vrfProof = Bad]
                  [] m = "nonceProof:flip" -> [b EXCEPT !.nonceProof = Bad]
+                 [] m = "opSig:flip"      -> [b EXCEPT !.opSig = Bad]
                  [] OTHER                 -> b
     IN [body |-> b2, kesSig |-> KesSig(in2.hot, in2.kesT, b2)]
 
@@ -220,9 +239,33 @@ ExpVbFails(x) == VbFailsTable[x]
 Valid(x)   == ExpFails(x) = {}
 VbOk(x)    == ExpVbFails(x) = {}
 
-VARIABLE c
-Init == c \in CaseSpace
-Next == UNCHANGED c
+------------------------------------------------------------------------
+(* histories on one validator instance *)
+HeaderTable == [x \in CaseSpace |-> HeaderOf(x)]
+\* two cases that one validator may be shown one after the other
+Related(x, y) == /\ x.layout = y.layout                  \* the layout is the validator's configuration
+                 /\ Valid(x) \/ Valid(y)
+                 /\ MixedOffs \/ x.off = y.off \/ x.regime = "none" \/ y.regime = "none"
+Hist2 == {p \in CaseSpace \X CaseSpace : Related(p[1], p[2])}
+Hist3 == IF MaxHist >= 3 THEN {<<p[1], p[2], p[1]>> : p \in Hist2} ELSE {}
+HistSpace == Hist2 \cup Hist3
+
+\* the state: the cases one validator instance has been shown, in order
+VARIABLE hist
+c == hist[Len(hist)]                \* the case being validated now
+Init == hist \in {<<x>> : x \in CaseSpace}          \* a fresh validator
+Next == \/ /\ Len(hist) = 1
+           /\ \E y \in CaseSpace : Related(hist[1], y) /\ hist' = Append(hist, y)
+        \/ /\ Len(hist) = 2 /\ MaxHist >= 3
+           /\ hist' = Append(hist, hist[1])
+        \/ UNCHANGED hist
+
+\* ValidateHeader on a validator that has been shown the cases `before`: the set of failing checks.
+\* The instance holds its configuration and nothing else; `before` does not occur on the right.
+VerdictAfter(before, x) == Fails(HeaderTable[x], x.layout, CtxOf(x.off))
+VbVerdictAfter(before, x) == VbFails(HeaderTable[x], BodyFor(x), CtxOf(x.off))
+StepFails(hs, i)   == VerdictAfter(SubSeq(hs, 1, i - 1), hs[i])
+StepVbFails(hs, i) == VbVerdictAfter(SubSeq(hs, 1, i - 1), hs[i])
 
 ------------------------------------------------------------------------
 (* meta-properties *)
@@ -260,6 +303,7 @@ InsiderExact  == (c.regime = "insider" /\ InWindow(c.off)) =>
       [] c.mut = "opSeq:+1"        -> ExpFails(c) = {9}
       [] c.mut = "opPeriod:-1"     -> 9 \in ExpFails(c) /\ ExpFails(c) \subseteq {7, 9}
       [] c.mut = "opSig:othercold" -> ExpFails(c) = {9}
+      [] c.mut = "opSig:flip"      -> ExpFails(c) = {9}
       [] c.mut = "pool:other"      -> ExpFails(c) = {5} /\ ExpVbFails(c) = {4}
       [] c.mut = "vrfProof:flip"   -> ExpFails(c) = {4} /\ ExpVbFails(c) = {1}
       [] c.mut = "nonceProof:flip" -> ExpFails(c) = {6} /\ VbOk(c)
@@ -274,6 +318,34 @@ WindowEdge == \A l \in Layouts :
     /\ Valid([layout |-> l, off |-> MaxEvol - 1, regime |-> "none", mut |-> "none"])
     /\ ~Valid([layout |-> l, off |-> MaxEvol, regime |-> "none", mut |-> "none"])
 
+\* ---- histories ----
+\* every step gets the verdict a fresh validator gives
+HistoryIrrelevant == \A i \in 1..Len(hist) :
+    /\ StepFails(hist, i) = ExpFails(hist[i])
+    /\ StepVbFails(hist, i) = ExpVbFails(hist[i])
+    /\ \A j \in 1..Len(hist) : hist[i] = hist[j] => StepFails(hist, i) = StepFails(hist, j)
+\* the four things an operational certificate certifies
+CertTuple(x) == LET b == HeaderTable[x].body IN <<b.issuer, b.opHot, b.opSeq, b.opPeriod>>
+CertReplay(x, y) == CertTuple(x) = CertTuple(y) /\ HeaderTable[x].body.opSig # HeaderTable[y].body.opSig
+\* a certificate accepted once does not vouch for another cold signature over the same tuple (whoever made
+\* it, whatever else is re-signed), before or after
+ReplayNeedsCold == \A i, j \in 1..Len(hist) :
+    (Valid(hist[i]) /\ CertReplay(hist[i], hist[j])) => 9 \in StepFails(hist, j)
+\* ValidateHeader pins every field of the header but the body hash (VerifyBlock pins that one): two headers
+\* accepted in one chain context differ in nothing else
+AcceptedPins == \A i, j \in 1..Len(hist) :
+    (Valid(hist[i]) /\ Valid(hist[j]) /\ hist[i].off = hist[j].off) =>
+        LET a == HeaderTable[hist[i]].body  b == HeaderTable[hist[j]].body
+        IN {f \in DOMAIN a : a[f] # b[f]} \subseteq {"bodyHash"}
+\* after an accepted header, and before one, every check is the only rejecting one for some case; and
+\* the cold signature is the only thing that rejects some replayed certificate
+HistIsolated == \A l \in Layouts : \A k \in (1..10) \ (IF l = "tpraos" THEN {} ELSE {6}) :
+    /\ \E p \in Hist2 : p[1].layout = l /\ Valid(p[1]) /\ ExpFails(p[2]) = {k}
+    /\ \E p \in Hist2 : p[1].layout = l /\ Valid(p[2]) /\ ExpFails(p[1]) = {k}
+CertReplayObservable == \A l \in Layouts :
+    /\ \E p \in Hist2 : p[1].layout = l /\ Valid(p[1]) /\ CertReplay(p[1], p[2]) /\ ExpFails(p[2]) = {9}
+    /\ \E p \in Hist2 : p[1].layout = l /\ Valid(p[2]) /\ CertReplay(p[1], p[2]) /\ ExpFails(p[1]) = {9}
+
 ------------------------------------------------------------------------
 (* emission *)
 OffName(o) == CASE o = -1 -> "m1" [] o = 0 -> "0" [] o = MaxEvol - 1 -> "maxm1" [] OTHER -> "max"
@@ -285,7 +357,17 @@ Row(x) == [layout |-> x.layout, off |-> OffName(x.off), regime |-> x.regime, mut
                     - Inputs(x.off).kesT,
            field |-> IF x.regime = "tamper" THEN FieldOf[x.mut] ELSE "-"]
 
-ASSUME MaxEvol >= 2 /\ SlotsPerKes >= 4 /\ OpPeriod >= 2
+StepRow(hs, i) == [case |-> Row(hs[i]), valid |-> StepFails(hs, i) = {}, fails |-> StepFails(hs, i),
+                   vbok |-> StepVbFails(hs, i) = {},
+                   vbfirst |-> IF StepVbFails(hs, i) = {} THEN 0 ELSE MinOf(StepVbFails(hs, i))]
+HistRow(hs) == [layout |-> hs[1].layout, steps |-> [i \in 1..Len(hs) |-> StepRow(hs, i)],
+                \* some later step replays the certificate tuple of an earlier one under another cold signature
+                certreplay |-> \E i, j \in 1..Len(hs) : i < j /\ CertReplay(hs[i], hs[j])]
+
+ASSUME MaxEvol >= 2 /\ SlotsPerKes >= 4 /\ OpPeriod >= 2 /\ MaxHist \in {2, 3} /\ MixedOffs \in BOOLEAN
+ASSUME HistIsolated
+ASSUME CertReplayObservable
+ASSUME ndJsonSerialize("histories.ndjson", SetToSeq({HistRow(hs) : hs \in HistSpace}))
 ASSUME Isolated
 ASSUME WindowEdge
 ASSUME ndJsonSerialize("cases.ndjson", SetToSeq({Row(x) : x \in CaseSpace}))
